@@ -4,8 +4,10 @@ import Codec.Wire
 import Codec.Handlers
 import Codec.Sha256
 import Codec.Parse
-import Codec.GenEndpoints
 import Codec.Spec
 import Codec.Examples
 import Codec.Lemmas
 import Codec.Props
+import Codec.GenEndpoints
+import Codec.EndpointsSpec
+import Codec.PropsEndpoints
